@@ -29,4 +29,5 @@ TNext == TReset \/ TCall \/ TDelegate \/ TReturn \/ Lin
 TSpec == TInit /\ [][TNext]_tvars
 Hwm == HwmConstraint(l)
 Accepted == HwmAccepted
+NotDone == l <= Len(Trace)
 =============================================================================
